@@ -201,6 +201,7 @@ Inductive expr :=
 | EDyad (op : string) (a b : expr)       (* KGFn, is_op, arity 2, two arguments *)
 | EMonad (op : string) (a : expr)        (* KGFn, is_op, arity 1 *)
 | EAdv (op adv : string) (a : expr)      (* KGCall adverb chain [KGAdverb(KGOp op), KGAdverb adv, a] *)
+| EMonadCond (op : string) (c : expr)    (* KGFn, is_op, arity 1, whose args IS a conditional :[c;t;e] (KGCond, a list subclass) *)
 | EOther.                                (* every other node: list/string literal, call, cond, ... *)
 
 Inductive ir :=
@@ -219,6 +220,7 @@ Record tables := {
   t_bin : list (string * string); t_cmp : list (string * string);
   t_red : list (string * string); t_scan : list (string * string);
   t_call : list (string * string);      (* binary verbs emitted as a call of a helper: {'%': '_div', '^': '_pow'} *)
+  unwrap_exact : bool;  (* the operand of a monad is unwrapped with `type(arg) is list` (a conditional is NOT a list) *)
   helpers_bound : bool; (* the exec namespace binds _div to compiled_divide and _pow to eval_dyad_power *)
   adm_obj : bool;       (* does _ast_to_ir admit object-dtype arrays? *)
   f_bin : list tpart; f_cmp : list tpart; f_neg : list tpart; f_red : list tpart; f_scan : list tpart;
@@ -282,6 +284,11 @@ Fixpoint ast_to_ir (T : tables) (rho : env) (e : expr) (vr : list string) : opti
             else if String.eqb adv "\" then Some (IScan op c, vr1) else None
         end
       else None
+  | EMonadCond op c =>
+      (* `isinstance(arg, list)` would take arg[0], the CONDITION, as the operand of the monad *)
+      if String.eqb op "-" && negb (unwrap_exact T) then
+        match ast_to_ir T rho c vr with Some (ci, vr1) => Some (INeg ci, vr1) | None => None end
+      else None                           (* a conditional is not compilable *)
   | EOther => None
   end.
 
@@ -606,6 +613,7 @@ Fixpoint interp (rho : env) (e : expr) : res val :=
   | EAdv op adv a =>
       bind (interp rho a) (fun v =>
         if String.eqb adv "/" then kg_over op v else if String.eqb adv "\" then kg_scan op v else Unm)
+  | EMonadCond _ _ => Unm                 (* conditionals are outside this model of the interpreter *)
   | EOther => Unm
   end.
 
@@ -647,5 +655,6 @@ Fixpoint d5 (rho : env) (e : expr) : bool :=
   | EDyad _ a b => d5 rho a && d5 rho b
   | EMonad _ a => d5 rho a
   | EAdv _ _ a => d5 rho a
+  | EMonadCond _ _ => false
   | EOther => false
   end.
